@@ -17,11 +17,9 @@ import (
 	"fmt"
 	"math"
 	"math/big"
-	"os"
 	"runtime"
 	"runtime/metrics"
 	"sort"
-	"strings"
 	"testing"
 
 	"github.com/btcsuite/btcd/btcec/v2"
@@ -46,15 +44,11 @@ const (
 	c10KeyHugeLen = "C10:tlv-decode-length-ge-2^63-accepted"
 )
 
-// c10Known: the key is listed as a known finding (or, for harness development
-// only, named in $VERIF_C10_KNOWN / "all").
+// c10Known: the key is listed with status "known" in known_findings.json. Every
+// guard has the shape `if c10Known(key) {exclude + count} else {assert}`, so a
+// fix in /repo (status "fixed") re-enables the class.
 func c10Known(key string) bool {
-	if vstats.IsKnown(key) {
-		return true
-	}
-	dev := os.Getenv("VERIF_C10_KNOWN")
-
-	return dev == "all" || (dev != "" && strings.Contains(dev, key))
+	return vstats.IsKnown(key)
 }
 
 type c10Kind int
